@@ -26,7 +26,7 @@ REG = dict(
 
 def run(tier, seed):
     return generic.run_spec("C19", tier, seed, STEPS, RULE,
-                            required=["connected_events", "connect_errors_reported", "dns_errors_reported", "lookups_cancelled_by_free", "lookups_cancelled_by_setfd", "server_spoke_first",
+                            required=["connected_events", "wm_cycles_after_read_end", "connect_errors_reported", "dns_errors_reported", "lookups_cancelled_by_free", "lookups_cancelled_by_setfd", "server_spoke_first",
                                       "eof_events", "error_events", "freed_inside_callback", "callbacks_cleared", "read_callbacks",
                                       "write_callbacks", "deferred_batches_in_order", "hostname_connects", "subjects_pair", "subjects_filter"],
                             assumptions=["callback order within one deferred batch (CONNECTED, read, write, event) is the library's documented choice; "
